@@ -299,7 +299,8 @@ FAMILIES = {
     "vhdx": [("fixed", "fixed.vhdx.gz"), ("dynamic", "dynamic.vhdx.gz"), ("dynamic-path", "dynamic.vhdx.gz"),
              ("dynamic-rwhandle", "dynamic.vhdx.gz"), ("dirty-rwhandle", "dynamic.vhdx.gz"), ("dirty-path", "dynamic.vhdx.gz"),
              ("differencing-path", "differencing.avhdx.gz"), ("differencing-path-parent-present", "differencing.avhdx.gz")],
-    "vmdk": [("sesparse", "sesparse.vmdk.gz"), ("sesparse-path", "sesparse.vmdk.gz"), ("flat-descriptor", None),
+    "vmdk": [("sesparse", "sesparse.vmdk.gz"), ("sesparse-path", "sesparse.vmdk.gz"), ("sesparse-path+debuglog", "sesparse.vmdk.gz"),
+             ("flat-descriptor+debuglog", None), ("flat-descriptor", None),
              ("flat-descriptor-parent", None), ("flat-descriptor-parent-present", None), ("handle-list", None)] +
             [(f"flat-descriptor-ct:{ct}:{acc}", None)
              for ct in ("fullDevice", "partitionedDevice", "vmfsRaw", "vmfsRawDeviceMap", "vmfsPassthroughRawDeviceMap",
@@ -314,7 +315,7 @@ FAMILIES = {
     "envelope": [("library", None), ("cli", None), ("cli-outdir", None), ("cli-outdir-upper", None)],
     "vmtar": [("sample-handle", "test.vgz"), ("sample-path", "test.vgz"), ("gz-handle", "test.vgz"), ("visortarfile", "test.vgz"),
               ("synthetic-handle", None), ("synthetic-path", None), ("gz-path", "test.vgz"), ("big-gz-path", None),
-              ("big-gz-handle", None)],
+              ("big-gz-handle", None), ("gz-aplushandle", "test.vgz"), ("sample-aplushandle", "test.vgz")],
 }
 DAMAGE = ["none", "trunc-0", "trunc-1", "trunc-512", "trunc-4096", "trunc-half", "trunc-last", "garbage-head", "garbage-mid"]
 
@@ -368,11 +369,15 @@ class AuditSuite(Suite):
             before = tree_state(root)
 
             def H(path, text=False):
-                if case["variant"].endswith("rwhandle"):
+                if case["variant"].endswith(("rwhandle", "aplushandle")):
                     was = aud.active
                     aud.active = False                           # the caller's own open is not the library's doing
                     try:
-                        raw = open(path, "r+" if text else "r+b")    # the caller's read/write handle, handed over as is
+                        # the caller's read/write handle, handed over as is ("a+b": positioned for appending, mode string
+                        # not starting with "r" — wrappers that infer their mode from it must still only read)
+                        mode = ("a+" if case["variant"].endswith("aplushandle") else "r+") + ("" if text else "b")
+                        raw = open(path, mode)
+                        raw.seek(0)
                     finally:
                         aud.active = was
                     handles.append(raw)
@@ -383,6 +388,17 @@ class AuditSuite(Suite):
 
             aud.events = []
             aud.active = True
+            import logging
+            dbg = case["variant"].endswith("+debuglog")
+            lgs = [logging.getLogger(n) for n in list(logging.Logger.manager.loggerDict)
+                   if n == "dissect" or n.startswith("dissect.hypervisor")]
+            old_levels = [(g, g.level) for g in lgs]
+            if dbg:
+                # verbose logging switched on by the application (what DISSECT_LOG_<MODULE>=DEBUG does at import time):
+                # diagnostics go to the application's handlers, never to files next to the evidence
+                for g in lgs:
+                    g.setLevel(logging.DEBUG)
+                case = dict(case, variant=case["variant"][:-len("+debuglog")])
             try:
                 expected_new = self.workload(case, paths, H, root)
                 res["outcome"] = "ok"
@@ -392,6 +408,12 @@ class AuditSuite(Suite):
                 res["outcome"] = "exc:" + type(e).__name__
                 expected_new = self.expected_new(case, root)
             finally:
+                for g, lv in old_levels:
+                    g.setLevel(lv)
+                    for h in list(g.handlers):
+                        if isinstance(h, logging.FileHandler):
+                            h.close()
+                            g.removeHandler(h)
                 aud.active = False
             for h in handles:
                 try:
@@ -528,7 +550,7 @@ class AuditSuite(Suite):
             paths["main"] = os.path.join(root, "big.vgz")
             with open(paths["main"], "wb") as o:
                 o.write(gzip.compress(bio.getvalue(), 1))
-        if fam == "vmtar" and variant in ("gz-handle", "gz-path"):
+        if fam == "vmtar" and variant in ("gz-handle", "gz-path", "gz-aplushandle"):
             raw = open(paths["main"], "rb").read()
             paths["main"] = os.path.join(root, "test.real.vgz")
             with open(paths["main"], "wb") as o:
@@ -543,7 +565,7 @@ class AuditSuite(Suite):
             if os.path.isfile(p):
                 # "-rwhandle": the caller hands over a handle it opened read/write (a generic I/O layer does): the file
                 # itself must be writable for that, and any write then shows in the before/after comparison of the tree
-                os.chmod(p, 0o644 if variant.endswith("rwhandle") else 0o444)
+                os.chmod(p, 0o644 if variant.endswith(("rwhandle", "aplushandle")) else 0o444)
         return paths
 
     def workload(self, case, paths, H, root):
